@@ -107,6 +107,10 @@ package resolver
 //@   assert [C17:install-only-in-an-acyclic-initialised-graph] acyclic && initialised
 //@   assert [C17:installed-version-is-the-selected-one] $ver == $toInstall && $ver != ""
 //@   assert [C17:installed-dependency-is-the-first-missing-one] len($implied) > 0 && $dep == as($first, *v1beta1.Dependency)
+//@ let $graphNode = result (dag.DAG).GetNode
+//@ optional site (*resolver.Reconciler).findDependencyVersionToUpdate(_, _, $uref, $ins, $node, _) as choose-upgrade
+//@   assert [C17:upgrade-is-chosen-against-the-graphs-node-holding-every-parents-constraint] $node == $graphNode && $node != nil
+//@   assert [C17:upgrade-only-in-an-acyclic-initialised-graph] acyclic && initialised
 //@ site (client.Writer).Create(_, _, $o, $opts...)
 //@   assert [C17:created-object-is-the-rendered-package] $o == $pack
 //@ site (client.Writer).Update(_, _, $o, $opts...)
